@@ -485,6 +485,70 @@ def ob_target_edit():
     return h
 
 
+TAILS = ['\n', '', '\n\n', '\n# end\n', '\nx = 1\n', '\nx = 1']     # what follows the last target statement (a file need not end with a line break)
+BAR_FORMS = ["executable('bar', 'bar.c')", "bar_exe = executable('bar', 'bar.c')", "bar_src = ['bar.c']\nbar_exe = executable('bar', bar_src)",
+             "bar_exe = executable('bar',\n  'bar.c',\n)", "bar_exe   =   executable('bar', 'bar.c')"]
+
+
+def _all_targets(d):
+    rw = R.Rewriter(d)
+    rw.analyze_meson()
+    return {t.name for t in rw.interpreter.targets}
+
+
+def ob_target_add_rm():
+    """add target / remove target through the real Rewriter (process + apply_changes, files on disk): wherever the addressed statement stands - also as the very last
+    statement of a file with or without a final line break - the command does what it was asked (no Python error), the file still parses, exactly the addressed target
+    appears / disappears, and every other statement is textually unchanged"""
+    def h():
+        import os
+        d = _tdir()
+        tail = TAILS[choose(len(TAILS), 'tail')]
+        op = ['target_add', 'target_rm', 'add-then-rm'][choose(3, 'operation')]
+        head = "project('p')\nexecutable('foo', 'foo.c')\n"
+        if op == 'target_rm':
+            form = BAR_FORMS[choose(len(BAR_FORMS), 'form')]
+            first = choose(2, 'position') == 1      # the addressed statement before / after the other target
+            text = ("project('p')\n" + form + "\nexecutable('foo', 'foo.c')" + tail) if first else (head + form + tail)
+        else:
+            text = head[:-1] + tail
+        path = os.path.join(d, 'meson.build')
+        with open(path, 'w') as f: f.write(text)
+        before = _all_targets(d)
+
+        def command(opn, name):
+            rw = R.Rewriter(d)
+            rw.analyze_meson()
+            rw.process({'type': 'target', 'target': name, 'operation': opn, 'sources': ['alpha.c'] if opn == 'target_add' else [], 'subdir': '', 'target_type': 'executable'})
+            rw.apply_changes()
+        try:
+            if op == 'target_rm': command('target_rm', 'bar')
+            else:
+                command('target_add', 'neu')
+                mid = open(path).read()
+                check(mid.startswith(text), 'add target: the existing text is kept as it is')
+                if op == 'add-then-rm': command('target_rm', 'neu')
+        except Exception as e:
+            check(False, 'the rewriter carries out the command (no Python error)'); return
+        new_text = open(path).read()
+        try:
+            after = _all_targets(d)
+        except Exception:
+            check(False, 'the edited file still parses and can be analysed'); return
+        if op == 'target_add':
+            check(after == before | {'neu'}, 'exactly the new target was added'); cover('added')
+        elif op == 'target_rm':
+            check(after == before - {'bar'}, 'exactly the addressed target was removed')
+            check("executable('foo', 'foo.c')" in new_text and "project('p')\n" in new_text and (tail.strip() in new_text), 'the other statements are textually unchanged')
+            check('bar_exe' not in new_text, 'the assignment of the removed target is gone')
+            cover('removed')
+        else:
+            check(after == before, 'adding then removing a target restores the set of targets')
+            check(new_text.startswith(text.rstrip('\n')), 'the original statements are textually unchanged')
+            cover('restored')
+    return h
+
+
 def obligations(tier):
     q = tier == 'quick'
     out = [Obligation('reprint[depth 1]', ob_reprint(1), dict(depth=1, operators=BIN, strings='1 symbolic body <=3 over ' + repr(SA)), labels=('roundtrip',), max_paths=5000000)]
@@ -492,6 +556,7 @@ def obligations(tier):
         out.append(Obligation('operator-pairs[%d]' % f, ob_pairs(f), dict(form=f, operators='all pairs of ' + repr(BIN)), labels=('roundtrip',), max_paths=5000000))
     # reprint[depth 2] (every derivation to depth 2 over BIN2) was measured: 6.7 million paths after 50 minutes and not finished - not part of the
     # registered tiers; the precedence-relevant depth-2 shapes are what operator-pairs[...] enumerate
+    out.append(Obligation('target-add-rm', ob_target_add_rm(), dict(operations='add target | remove target | add then remove', file_end=repr(TAILS), statement_forms=len(BAR_FORMS), position='first | last target'), labels=('added', 'removed', 'restored')))
     out.append(Obligation('target-edit', ob_target_edit(), dict(shapes='%d ways foo uses the shared list x %d ways bar does' % (len(FOO_USES), len(BAR_USES)), operations='add new / add existing / rm shared / rm own',
                           files='real files in a scratch directory (pathlib resolves them): names concrete'), labels=('edited', 'refused-or-nothing-to-do'), path_timeout=300))
     for op in ('set', 'delete', 'add', 'remove'):
